@@ -124,8 +124,12 @@ def run(ctx, shard):
     if shard["part"] == "fixed":
         secs = list(range(-64800, 64801, 900)) + [rng.randint(-64800, 64800) for _ in range(200)] + [1, -1, 64799, -64799]
         for s in secs:
-            z = DateTimeZone.for_offset(Offset.from_seconds(s))
             zid = f"for_offset({s})"
+            try:
+                z = DateTimeZone.for_offset(Offset.from_seconds(s))
+            except Exception as e:  # noqa: BLE001  (every offset within +-18 h has a fixed zone)
+                ctx.exc(e); ctx.counters["fixed_zones"] += 1
+                V(ctx, zid, f"fixed-zone-raised:{type(e).__name__}", f"DateTimeZone.for_offset({s} s) raised {e!r}", {"s": s}); continue
             ctx.counters["fixed_zones"] += 1; ctx.ev(); ctx.key(("fixed", s % 900 == 0, (s > 0) - (s < 0)))
             log, problems = zonewalk.walk(z)
             if problems or len(log) != 1 or log[0][:5] != (None, None, s, 0, s):
